@@ -37,7 +37,7 @@ def required_cells(tier):
     return {"env:ancilla": 6, "env:pttempo": 2, "nenv:1": 3, "nenv:2": 3,
             "nenv:3": 1, "M:1": 1, "M:2": 1, "M:3": 1, "N:1": 1,
             "dissipator:param": 3, "deriv:user": 2, "deriv:numeric": 3,
-            "target:callable": 2, "target:array": 3, "callables-return-stored-arrays": 4, "pt:gauged": 4, "no-drift&zero-controls": 2, "shared-rate-callable": 4, "initial-matrix:non-hermitian": 2, "history:two-dt": 1, "params:structured": 3, "lastbond:closed": 2, "lastbond:cap": 2,
+            "target:callable": 2, "target:array": 3, "callables-return-stored-arrays": 4, "pt:gauged": 4, "no-drift&zero-controls": 2, "shared-rate-callable": 4, "initial-matrix:non-hermitian": 2, "history:two-dt": 1, "start!=0": 5, "params:structured": 3, "lastbond:closed": 2, "lastbond:cap": 2,
             "gradient_entries_compared": 100}
 
 
@@ -318,8 +318,22 @@ def run_ancilla(case):
                              rng.normal(size=(2 * n0, m)),
                              progress_type="silent")
         cells.append("history:two-dt")
-    res = oqupy.state_gradient(system, rho0, tgt, pts, params.copy(),
-                               progress_type="silent")
+    start = [0.0, 1.5, -0.7, 0.0][i % 4]
+    if start:
+        res = oqupy.state_gradient(system, rho0, tgt, pts, params.copy(),
+                                   start_time=start, progress_type="silent")
+        cells.append("start!=0")
+    else:
+        res = oqupy.state_gradient(system, rho0, tgt, pts, params.copy(),
+                                   progress_type="silent")
+    # the dynamics it reports: every state at the time it belongs to
+    tg = np.asarray(res["dynamics"].times, dtype=float)
+    texp = start + dt * np.arange(nsteps + 1)
+    if tg.shape != texp.shape or np.abs(tg - texp).max() > 1e-12:
+        violations.append({
+            "what": f"the reported dynamics carries the times "
+                    f"{tg.tolist()[:5]}.. for start_time={start}, dt={dt}",
+            "mechanism": "dynamics-times", "detail": {}})
     for arr, orig in model.user_arrays:
         if not np.array_equal(arr, orig):
             violations.append({
